@@ -1,0 +1,588 @@
+//go:build verif
+
+package wtxmgr
+
+// Contracts for properties C14, C13 and C02 (comment only).
+
+// ======================= C14: dependency sort (kahnsort.go) =======================
+// at(j): instantiation marker for existential positions (always true; gives the solver a term to match on)
+//@ spec func at(j Int) Bool
+//@ axiom at_true: forall j Int :: {at(j)} at(j)
+// graph well-formedness used by graphRoots / DependencySort: distinct keys hold distinct transactions
+//@ macro G_INJ(graph) = (forall k1 [Int]Int, k2 [Int]Int :: {graph[k1], graph[k2]} has(graph, k1) && has(graph, k2) && k1 != k2 ==> graph[k1].value != graph[k2].value)
+
+
+// graphRoots returns the transactions of exactly the nodes with inDegree 0, each once.
+//@ func graphRoots(graph) (roots)
+//@   property C14
+//@   requires inj: G_INJ(graph)
+//@   invariant 1 seen_keys: forall k [Int]Int :: {select(rangeseen, k)} select(rangeseen, k) ==> has(graph, k)
+//@   invariant 1 sound: forall j Int :: {roots[j]} 0 <= j && j < len(roots) ==>
+//@       (exists k [Int]Int :: select(rangeseen, k) && graph[k].inDegree == 0 && roots[j] == graph[k].value)
+//@   invariant 1 complete: forall k [Int]Int :: {select(rangeseen, k)} select(rangeseen, k) && graph[k].inDegree == 0 ==>
+//@       (exists j Int :: {at(j)} at(j) && 0 <= j && j < len(roots) && roots[j] == graph[k].value)
+//@   invariant 1 once: forall i Int, j Int :: {roots[i], roots[j]} 0 <= i && i < j && j < len(roots) ==> roots[i] != roots[j]
+//@   invariant 1 mark: at(len(roots))
+//@   invariant 1 count: len(roots) <= card(rangeseen)
+//@   invariant 1 count_strict: (exists k [Int]Int :: select(rangeseen, k) && graph[k].inDegree != 0) ==> len(roots) < card(rangeseen)
+//@   ensures roots_sound: forall j Int :: {roots[j]} 0 <= j && j < len(roots) ==>
+//@       (exists k [Int]Int :: has(graph, k) && graph[k].inDegree == 0 && roots[j] == graph[k].value)
+//@   ensures roots_complete: forall k [Int]Int :: {has(graph, k)} has(graph, k) && graph[k].inDegree == 0 ==>
+//@       (exists j Int :: {at(j)} at(j) && 0 <= j && j < len(roots) && roots[j] == graph[k].value)
+//@   ensures roots_once: forall i Int, j Int :: {roots[i], roots[j]} 0 <= i && i < j && j < len(roots) ==> roots[i] != roots[j]
+//@   ensures count: len(roots) <= len(graph)
+//@   ensures all_roots_only_if_no_edges: len(roots) == len(graph) ==> (forall k [Int]Int :: {graph[k]} has(graph, k) ==> graph[k].inDegree == 0)
+//@   ensures graph_unchanged: forall k [Int]Int :: {graph[k]} has(graph, k) == old(has(graph, k)) && graph[k] == old(graph[k])
+
+// The map handed to makeGraph / DependencySort is keyed by the transaction hash of its values
+// (Store.UnminedTxs builds it that way).
+//@ macro SET_WF(set) = (forall k [Int]Int :: {set[k]} has(set, k) ==> set[k] != nil && txid(set[k]) == k)
+//@ macro G_NODES(graph, set) = (forall k [Int]Int :: {graph[k]} {has(graph, k)} has(graph, k) ==> has(set, k) && graph[k].value == set[k])
+
+// cntIn: how many of the first n inputs of a transaction spend a transaction of the set
+// (row = the []*wire.TxIn backing row, mem8 = byte memory holding the previous-outpoint hashes)
+//@ spec func cntIn(d [[Int]Int]Bool, row [Int]Int, mem8 [Int][Int]Int, off Int, n Int) Int
+//@ axiom cntIn_0: forall d [[Int]Int]Bool, row [Int]Int, mem8 [Int][Int]Int, off Int, n Int :: {cntIn(d, row, mem8, off, n)} n <= 0 ==> cntIn(d, row, mem8, off, n) == 0
+//@ axiom cntIn_s: forall d [[Int]Int]Bool, row [Int]Int, mem8 [Int][Int]Int, off Int, n Int :: {cntIn(d, row, mem8, off, n), at(n)}
+//@     n > 0 ==> cntIn(d, row, mem8, off, n) == cntIn(d, row, mem8, off, n-1) + (select(d, select(mem8, fld(fld(select(row, off+n-1), 0), 0))) ? 1 : 0)
+//@ axiom cntIn_bounds: forall d [[Int]Int]Bool, row [Int]Int, mem8 [Int][Int]Int, off Int, n Int :: {cntIn(d, row, mem8, off, n)} 0 <= cntIn(d, row, mem8, off, n) && (n >= 0 ==> cntIn(d, row, mem8, off, n) <= n)
+//@ macro CNTIN(set, tx, n) = cntIn(dom(set), row(tx.TxIn), old(@M(uint8)), tx.TxIn.off, n)
+// heq: Go equality of two [32]byte values (the generator compares arrays element by element)
+//@ spec func heq(a [Int]Int, b [Int]Int) Bool = select(a, 0) == select(b, 0) && select(a, 1) == select(b, 1) && select(a, 2) == select(b, 2) && select(a, 3) == select(b, 3) && select(a, 4) == select(b, 4) && select(a, 5) == select(b, 5) && select(a, 6) == select(b, 6) && select(a, 7) == select(b, 7) && select(a, 8) == select(b, 8) && select(a, 9) == select(b, 9) && select(a, 10) == select(b, 10) && select(a, 11) == select(b, 11) && select(a, 12) == select(b, 12) && select(a, 13) == select(b, 13) && select(a, 14) == select(b, 14) && select(a, 15) == select(b, 15) && select(a, 16) == select(b, 16) && select(a, 17) == select(b, 17) && select(a, 18) == select(b, 18) && select(a, 19) == select(b, 19) && select(a, 20) == select(b, 20) && select(a, 21) == select(b, 21) && select(a, 22) == select(b, 22) && select(a, 23) == select(b, 23) && select(a, 24) == select(b, 24) && select(a, 25) == select(b, 25) && select(a, 26) == select(b, 26) && select(a, 27) == select(b, 27) && select(a, 28) == select(b, 28) && select(a, 29) == select(b, 29) && select(a, 30) == select(b, 30) && select(a, 31) == select(b, 31)
+// the transactions form an acyclic spend graph: in particular none spends itself
+//@ macro NO_SELF(set) = (forall k [Int]Int, i Int :: {set[k].TxIn[i]} has(set, k) && 0 <= i && i < len(set[k].TxIn) ==> set[k].TxIn[i] != nil && !heq(set[k].TxIn[i].PreviousOutPoint.Hash, k))
+//@ macro G_SEP(graph) = (forall k1 [Int]Int, k2 [Int]Int :: {graph[k1], graph[k2]} has(graph, k1) && has(graph, k2) && k1 != k2 && graph[k1].outEdges.base != 0 ==> graph[k1].outEdges.base != graph[k2].outEdges.base)
+//@ macro G_ROWS(graph) = (forall k [Int]Int :: {graph[k]} has(graph, k) ==> graph[k].inDegree >= 0 && (graph[k].outEdges.base == 0 || (fresh(graph[k].outEdges) && allocated(graph[k].outEdges))))
+// every out-edge of node k is a pointer created here to the hash of another node of the graph, which has a positive in-degree
+//@ macro G_EDGE_PTR(graph) = (forall k [Int]Int, j Int :: {graph[k].outEdges[j]} has(graph, k) && 0 <= j && j < len(graph[k].outEdges) ==>
+//@     graph[k].outEdges[j] != nil && allocated(graph[k].outEdges[j]) && fresh(graph[k].outEdges[j]) && !heq(deref(graph[k].outEdges[j]), k))
+//@ macro G_EDGE_TGT(graph) = (forall k [Int]Int, j Int :: {graph[k].outEdges[j]} has(graph, k) && 0 <= j && j < len(graph[k].outEdges) ==>
+//@     has(graph, deref(graph[k].outEdges[j])) && graph[deref(graph[k].outEdges[j])].inDegree > 0)
+// an edge parent -> c exists for input i of transaction c (EDGE_FOR: the parent's edge list holds a pointer to c's hash)
+//@ macro EDGE_FOR(graph, p, c) = (has(graph, p) && ((exists j Int :: {at(j)} at(j) && 0 <= j && j < len(graph[p].outEdges) && deref(graph[p].outEdges[j]) == c)
+//@     || (len(graph[p].outEdges) > 0 && at(len(graph[p].outEdges) - 1) && deref(graph[p].outEdges[len(graph[p].outEdges) - 1]) == c)))
+//@ macro BYTES_KEPT() = (forall o Int :: {select(@M(uint8), o)} oldalloc(o) ==> select(@M(uint8), o) == select(old(@M(uint8)), o))
+
+//@ func makeGraph(set) (graph)
+//@   property C14
+//@   requires set_wf: SET_WF(set)
+//@   requires acyclic: NO_SELF(set)
+//@   invariant 1 nodes: G_NODES(graph, set)
+//@   invariant 1 bytes: BYTES_KEPT()
+//@   invariant 1 sep: G_SEP(graph)
+//@   invariant 1 rows: G_ROWS(graph)
+//@   invariant 1 edge_ptr: G_EDGE_PTR(graph)
+//@   invariant 1 edge_tgt: G_EDGE_TGT(graph)
+//@   invariant 1 indeg: forall c [Int]Int :: {graph[c]} has(graph, c) ==> graph[c].inDegree == (select(rangeseen, c) ? CNTIN(set, set[c], len(set[c].TxIn)) : 0)
+//@   invariant 1 spends_have_edges: forall c [Int]Int, i Int :: {set[c].TxIn[i]} select(rangeseen, c) && has(set, c) && 0 <= i && i < len(set[c].TxIn) && has(set, set[c].TxIn[i].PreviousOutPoint.Hash)
+//@       ==> EDGE_FOR(graph, set[c].TxIn[i].PreviousOutPoint.Hash, c)
+//@   invariant 2 spends_have_edges: forall c [Int]Int, i Int :: {set[c].TxIn[i]} select(rangeseen, c) && has(set, c) && 0 <= i && i < len(set[c].TxIn) && (c != txHash || i <= rangeindex) && has(set, set[c].TxIn[i].PreviousOutPoint.Hash)
+//@       ==> EDGE_FOR(graph, set[c].TxIn[i].PreviousOutPoint.Hash, c)
+//@   invariant 2 idx: 0 <= rangeindex + 1 && rangeindex + 1 <= len(tx.TxIn)
+//@   invariant 2 bytes: BYTES_KEPT()
+//@   invariant 2 sep: G_SEP(graph)
+//@   invariant 2 rows: G_ROWS(graph)
+//@   invariant 2 edge_ptr: G_EDGE_PTR(graph)
+//@   invariant 2 edge_tgt: G_EDGE_TGT(graph)
+//@   invariant 2 indeg: forall c [Int]Int :: {graph[c]} has(graph, c) && c != txHash ==> graph[c].inDegree == (select(rangeseen, c) ? CNTIN(set, set[c], len(set[c].TxIn)) : 0)
+//@   invariant 2 indeg_cur: graph[txHash].inDegree == CNTIN(set, tx, rangeindex + 1) && at(rangeindex + 1) && select(rangeseen, txHash)
+//@   invariant 1 seen_in: forall k [Int]Int :: {select(rangeseen, k)} select(rangeseen, k) ==> has(graph, k)
+//@   invariant 2 nodes: G_NODES(graph, set)
+//@   invariant 2 seen_in: forall k [Int]Int :: {select(rangeseen, k)} select(rangeseen, k) ==> has(graph, k)
+//@   invariant 2 cur: has(set, txHash) && set[txHash] == tx && has(graph, txHash)
+//@   invariant 3 idx: 0 <= rangeindex + 1 && rangeindex + 1 <= len(inputNode.outEdges)
+//@   ensures nodes: forall k [Int]Int :: {graph[k]} {set[k]} has(graph, k) == has(set, k) && (has(set, k) ==> graph[k].value == set[k])
+//@   ensures same_size: len(graph) == len(set)
+//@   ensures edges: G_EDGE_PTR(graph) && G_EDGE_TGT(graph)
+//@   ensures nonneg: forall k [Int]Int :: {graph[k]} has(graph, k) ==> graph[k].inDegree >= 0
+//@   ensures inj: G_INJ(graph)
+//@   ensures spends_have_edges: forall c [Int]Int, i Int :: {set[c].TxIn[i]} has(set, c) && 0 <= i && i < len(set[c].TxIn) && has(set, set[c].TxIn[i].PreviousOutPoint.Hash)
+//@       ==> EDGE_FOR(graph, set[c].TxIn[i].PreviousOutPoint.Hash, c)
+//@   ensures indegree: forall c [Int]Int :: {graph[c]} has(set, c) ==> graph[c].inDegree == CNTIN(set, set[c], len(set[c].TxIn))
+
+// every out-edge points to the hash of a node of the graph
+//@ macro G_EDGE_OK(graph) = (forall k [Int]Int, j Int :: {graph[k].outEdges[j]} has(graph, k) && 0 <= j && j < len(graph[k].outEdges) ==>
+//@     graph[k].outEdges[j] != nil && has(graph, deref(graph[k].outEdges[j])))
+// every element of list l is the transaction of a node whose in-degree is exhausted (node key = its txid)
+//@ macro ALL_READY(l, graph) = (forall j Int :: {l[j]} 0 <= j && j < len(l) ==> l[j] != nil && has(graph, txid(l[j])) && graph[txid(l[j])].value == l[j] && graph[txid(l[j])].inDegree == 0)
+//@ macro DISTINCT(l) = (forall i Int, j Int :: {l[i], l[j]} 0 <= i && i < j && j < len(l) ==> l[i] != l[j])
+//@ macro DISJOINT(a, b) = (forall i Int, j Int :: {a[i], b[j]} 0 <= i && i < len(a) && 0 <= j && j < len(b) ==> a[i] != b[j])
+//@ macro G_SAME_KEYS(graph, set) = (forall k [Int]Int :: {has(set, k)} has(set, k) ==> has(graph, k))
+//@ macro G_NONNEG(graph) = (forall k [Int]Int :: {graph[k]} has(graph, k) ==> graph[k].inDegree >= 0)
+
+// DependencySort (Kahn): only transactions of the set whose in-degree is exhausted are emitted, none twice;
+// the in-degree never goes negative; the early return is taken only when no node has a parent in the set,
+// and then returns every transaction.
+//@ func DependencySort(txs) (r)
+//@   property C14
+//@   requires set_wf: SET_WF(txs)
+//@   requires acyclic: NO_SELF(txs)
+//@   invariant 1 nodes: G_NODES(graph, txs) && G_SAME_KEYS(graph, txs)
+//@   invariant 1 nonneg: G_NONNEG(graph)
+//@   invariant 1 edges: G_EDGE_OK(graph)
+//@   invariant 1 work_ready: ALL_READY(s, graph)
+//@   invariant 1 sorted_ready: ALL_READY(sorted, graph)
+//@   invariant 1 once: DISTINCT(s) && DISTINCT(sorted) && DISJOINT(s, sorted)
+//@   invariant 1 sep: sorted.base != 0 && s.base != sorted.base
+//@   invariant 2 idx: 0 <= rangeindex + 1 && rangeindex + 1 <= len(n.outEdges)
+//@   invariant 2 cur: has(graph, txid(tx)) && n.outEdges == graph[txid(tx)].outEdges
+//@   invariant 2 nodes: G_NODES(graph, txs) && G_SAME_KEYS(graph, txs)
+//@   invariant 2 nonneg: G_NONNEG(graph)
+//@   invariant 2 edges: G_EDGE_OK(graph)
+//@   invariant 2 work_ready: ALL_READY(s, graph)
+//@   invariant 2 sorted_ready: ALL_READY(sorted, graph)
+//@   invariant 2 once: DISTINCT(s) && DISTINCT(sorted) && DISJOINT(s, sorted)
+//@   invariant 2 sep: sorted.base != 0 && s.base != sorted.base
+//@   ensures elems_in_set: forall j Int :: {r[j]} 0 <= j && j < len(r) ==> r[j] != nil && has(txs, txid(r[j])) && txs[txid(r[j])] == r[j]
+//@   ensures once: DISTINCT(r)
+//@   ensures shortcut_sound: r == s ==> (forall k [Int]Int :: {graph[k]} has(graph, k) ==> graph[k].inDegree == 0)
+//@   ensures shortcut_complete: r == s ==> (forall k [Int]Int :: {txs[k]} has(txs, k) ==> (exists j Int :: {at(j)} at(j) && 0 <= j && j < len(r) && r[j] == txs[k]))
+
+// ======================= C13: transaction details queries (query.go) =======================
+//@ macro B_M(ns) = sub(bid(ns), bytes(bucketUnmined))
+//@ macro B_T(ns) = sub(bid(ns), bytes(bucketTxRecords))
+//@ macro B_B(ns) = sub(bid(ns), bytes(bucketBlocks))
+//@ macro HASHB(txHash) = bytes(deref(txHash))
+
+//@ func existsRawUnmined(ns, k) (v)
+//@   property C13 C02
+//@   requires wf: ns != nil && select(DBlive, B_M(ns))
+//@   ensures nil_iff_absent: (v == nil) == !HAS(B_M(ns), old(bytes(k)))
+//@   ensures value: v != nil ==> bytes(v) == VAL(B_M(ns), old(bytes(k)))
+//@   ensures db_unchanged: DB_UNCHANGED()
+
+// latestTxRecord: the returned pair is a record of bucket t whose key extends the hash; nothing is returned only if no such key exists
+//@ func latestTxRecord(ns, txHash) (k, v)
+//@   property C13
+//@   requires wf: ns != nil && txHash != nil && select(DBlive, B_T(ns))
+//@   requires no_nested: forall K Bytes :: {sub(B_T(ns), K)} !select(DBlive, sub(B_T(ns), K))
+//@   invariant 1 last: lastVal == nil || (lastKey != nil && HAS(B_T(ns), bytes(lastKey)) && bytes(lastVal) == VAL(B_T(ns), bytes(lastKey)) && ISPREFIX(HASHB(txHash), bytes(lastKey)))
+//@   invariant 1 cur: ck == nil || (HAS(B_T(ns), bytes(ck)) && cv != nil && bytes(cv) == VAL(B_T(ns), bytes(ck)))
+//@   invariant 1 pending: (exists K Bytes :: {select(select(DBhas, B_T(ns)), K)} HAS(B_T(ns), K) && ISPREFIX(HASHB(txHash), K)) ==> lastVal != nil || (ck != nil && ISPREFIX(HASHB(txHash), bytes(ck)))
+//@   ensures record: v != nil ==> k != nil && HAS(B_T(ns), bytes(k)) && bytes(v) == VAL(B_T(ns), bytes(k)) && ISPREFIX(HASHB(txHash), bytes(k))
+//@   ensures found_iff_exists: (v != nil) == (exists K Bytes :: {select(select(DBhas, B_T(ns)), K)} HAS(B_T(ns), K) && ISPREFIX(HASHB(txHash), K))
+//@   ensures db_unchanged: DB_UNCHANGED()
+
+//@ spec func u32h(h Int) Int = h < 0 ? h + 4294967296 : h
+//@ spec func i32of(v Int) Int = v > 2147483647 ? v - 4294967296 : v
+// tx record key: 32 hash bytes, block height big-endian, 32 block-hash bytes
+//@ spec func ktxArr(h [Int]Int, height Int, bh [Int]Int) [Int]Int
+//@ axiom ktxArr_def: forall h [Int]Int, x Int, bh [Int]Int, i Int :: {select(ktxArr(h, x, bh), i)}
+//@     select(ktxArr(h, x, bh), i) == ((0 <= i && i < 32) ? select(h, i) : ((32 <= i && i < 36) ? be32byte(x, i - 32) : ((36 <= i && i < 68) ? select(bh, i - 36) : 0)))
+//@ spec func K_tx(h [Int]Int, height Int, bh [Int]Int) Bytes = mkbytes(68, ktxArr(h, height, bh))
+//@ spec func ktxHeight(k Bytes) Int = i32of(be32(bat(k, 32), bat(k, 33), bat(k, 34), bat(k, 35)))
+// all standard buckets of the namespace exist (createStore)
+//@ macro NS_ALL(ns) = (ns != nil && select(DBlive, B_M(ns)) && select(DBlive, B_T(ns)) && select(DBlive, B_B(ns)) && select(DBlive, B_U(ns)) && select(DBlive, B_MC(ns)) && select(DBlive, B_MI(ns))
+//@     && select(DBlive, sub(bid(ns), bytes(bucketCredits))) && select(DBlive, sub(bid(ns), bytes(bucketDebits))))
+
+//@ func keyTxRecord(txHash, block) (k)
+//@   property C13 C02
+//@   requires nonnil: txHash != nil && block != nil
+//@   fresh k
+//@   ensures key: len(k) == 68 && bytes(k) == K_tx(old(deref(txHash)), u32h(old(block.Height)), old(block.Hash))
+//@   ensures frame: forall o Int :: {select(@M(uint8), o)} oldalloc(o) ==> select(@M(uint8), o) == select(old(@M(uint8)), o)
+
+//@ func readRawTxRecordBlock(k, block) (err)
+//@   property C13
+//@   requires nonnil: block != nil
+//@   ensures short: len(k) < 68 ==> err != nil
+//@   ensures parsed: len(k) >= 68 ==> err == nil && block.Height == ktxHeight(old(bytes(k)))
+//@       && (forall i Int :: {select(block.Hash, i)} 0 <= i && i < 32 ==> select(block.Hash, i) == bat(old(bytes(k)), 36 + i))
+
+// readRawTxRecord fills rec from the record value; only rec itself (and fresh memory) is written
+//@ func readRawTxRecord(txHash, v, rec) (err)
+//@   property C13
+//@   requires nonnil: txHash != nil && rec != nil
+//@   ensures short: len(v) < 8 ==> err != nil
+//@   ensures hash: err == nil ==> rec.Hash == old(deref(txHash))
+//@   ensures bounded: err == nil ==> len(rec.MsgTx.TxOut) <= 4294967295 && len(rec.MsgTx.TxIn) <= 4294967295
+//@   ensures bytes_frame: forall o Int :: {select(@M(uint8), o)} oldalloc(o) && o != fld(rec, 1) ==> select(@M(uint8), o) == select(old(@M(uint8)), o)
+
+//@ macro HEIGHTS_KEPT() = (forall o Int :: {select(@H(Block.Height), o)} oldalloc(o) ==> select(@H(Block.Height), o) == select(old(@H(Block.Height)), o))
+// CREDITS_OK(cs): every listed credit is decoded from a credit record K of bucket c whose key extends the
+// tx record key; it is reported spent exactly when that record carries the spent bit or an unconfirmed
+// transaction spends the output (bucket mi holds the outpoint)
+//@ macro CREDIT_OK(ns, cr, recKeyB, h) = (exists K Bytes :: {select(select(DBhas, B_CR(ns)), K)} HAS(B_CR(ns), K) && ISPREFIX(recKeyB, K) && blen(K) >= 72
+//@     && cr.Index == crIndex(K) && cr.Amount == crAmount(VAL(B_CR(ns), K)) && cr.Change == crChangeBit(VAL(B_CR(ns), K))
+//@     && cr.Spent == (crSpentBit(VAL(B_CR(ns), K)) || HAS(B_MI(ns), K_op(h, cr.Index))))
+// every listed debit is decoded from a debit record K of bucket d whose key extends the tx record key
+//@ macro MDEBIT_OK(ns, d, recKeyB) = (exists K Bytes :: {select(select(DBhas, B_DB(ns)), K)} HAS(B_DB(ns), K) && ISPREFIX(recKeyB, K) && blen(K) >= 72
+//@     && d.Index == crIndex(K) && d.Amount == crAmount(VAL(B_DB(ns), K)))
+// minedTxDetails: the details are reported under the block named by the record key
+//@ func (*Store).minedTxDetails(s, ns, txHash, recKey, recVal) (r, err)
+//@   property C13
+//@   requires wf: NS_ALL(ns) && txHash != nil
+//@   invariant 0 block_kept: len(recKey) >= 68 && details.Block.Height == ktxHeight(old(bytes(recKey)))
+//@       && (forall i Int :: {select(details.Block.Hash, i)} 0 <= i && i < 32 ==> select(details.Block.Hash, i) == bat(old(bytes(recKey)), 36 + i))
+//@   invariant 0 hash_kept: details.Hash == old(deref(txHash))
+//@   invariant 0 db_kept: DB_UNCHANGED()
+//@   invariant 0 heights_kept: HEIGHTS_KEPT()
+//@   invariant 0 key_kept: bytes(recKey) == old(bytes(recKey)) && deref(txHash) == old(deref(txHash))
+//@   invariant 1 iter: local(credIter).c == nil || (cbkt(local(credIter).c) == B_CR(ns) && local(credIter).prefix == recKey)
+//@   invariant 0 credit_flags: forall j Int :: {details.Credits[j]} 0 <= j && j < len(details.Credits) ==> CREDIT_OK(ns, details.Credits[j], old(bytes(recKey)), old(deref(txHash)))
+//@   ensures credit_flags: r != nil ==> (forall j Int :: {r.Credits[j]} 0 <= j && j < len(r.Credits) ==> CREDIT_OK(ns, r.Credits[j], old(bytes(recKey)), old(deref(txHash))))
+//@   invariant 2 deb_iter: local(debIter).c == nil || (cbkt(local(debIter).c) == B_DB(ns) && local(debIter).prefix == recKey)
+//@   invariant 2 debits: forall j Int :: {details.Debits[j]} 0 <= j && j < len(details.Debits) ==> MDEBIT_OK(ns, details.Debits[j], old(bytes(recKey)))
+//@   ensures debits: r != nil ==> (forall j Int :: {r.Debits[j]} 0 <= j && j < len(r.Debits) ==> MDEBIT_OK(ns, r.Debits[j], old(bytes(recKey))))
+//@   ensures heights_kept: HEIGHTS_KEPT()
+//@   ensures result: err == nil ==> r != nil && len(recKey) >= 68
+//@   ensures block_of_key: err == nil ==> r.Block.Height == ktxHeight(old(bytes(recKey)))
+//@       && (forall i Int :: {select(r.Block.Hash, i)} 0 <= i && i < 32 ==> select(r.Block.Hash, i) == bat(old(bytes(recKey)), 36 + i))
+//@   ensures hash: err == nil ==> r.Hash == old(deref(txHash))
+//@   ensures failure: err != nil ==> r == nil
+//@   ensures db_unchanged: DB_UNCHANGED()
+
+// every listed credit of an unconfirmed transaction is decoded from a record K of bucket mc whose key extends the
+// hash, and is reported spent exactly when an unconfirmed transaction spends it (bucket mi holds K)
+//@ macro UCREDIT_OK(ns, cr, hB) = (exists K Bytes :: {select(select(DBhas, B_MC(ns)), K)} HAS(B_MC(ns), K) && ISPREFIX(hB, K) && blen(K) >= 36
+//@     && cr.Index == be32(bat(K, 32), bat(K, 33), bat(K, 34), bat(K, 35)) && cr.Amount == crAmount(VAL(B_MC(ns), K)) && cr.Change == crChangeBit(VAL(B_MC(ns), K))
+//@     && cr.Spent == HAS(B_MI(ns), K))
+// debits of an unconfirmed transaction are recomputed: input x gets a debit exactly when its previous output is a
+// confirmed unspent credit (bucket u) or an unconfirmed credit (bucket mc, which then supplies the amount)
+//@ macro PREVKEY(in) = K_op(in.PreviousOutPoint.Hash, in.PreviousOutPoint.Index)
+//@ macro IN_U(ns, K) = (HAS(B_U(ns), K) && blen(VAL(B_U(ns), K)) >= 36)
+//@ macro DEBIT_OK(ns, d, ins, n) = (0 <= d.Index && d.Index < n && (IN_U(ns, PREVKEY(ins[d.Index])) || (HAS(B_MC(ns), PREVKEY(ins[d.Index])) && d.Amount == crAmount(VAL(B_MC(ns), PREVKEY(ins[d.Index]))))))
+// unminedTxDetails: the details are reported as unconfirmed (height -1, zero block hash)
+//@ func (*Store).unminedTxDetails(s, ns, txHash, v) (r, err)
+//@   property C13
+//@   requires wf: NS_ALL(ns) && txHash != nil
+//@   invariant 0 block_kept: details.Block.Height == 0 - 1 && (forall i Int :: {select(details.Block.Hash, i)} 0 <= i && i < 32 ==> select(details.Block.Hash, i) == 0)
+//@   invariant 0 hash_kept: details.Hash == old(deref(txHash))
+//@   invariant 0 db_kept: DB_UNCHANGED()
+//@   invariant 0 hash_arg_kept: deref(txHash) == old(deref(txHash))
+//@   invariant 1 iter: local(it).c == nil || (cbkt(local(it).c) == B_MC(ns) && bytes(local(it).prefix) == old(HASHB(txHash)))
+//@   invariant 0 credit_flags: forall j Int :: {details.Credits[j]} 0 <= j && j < len(details.Credits) ==> UCREDIT_OK(ns, details.Credits[j], old(HASHB(txHash)))
+//@   ensures credit_flags: r != nil ==> (forall j Int :: {r.Credits[j]} 0 <= j && j < len(r.Credits) ==> UCREDIT_OK(ns, r.Credits[j], old(HASHB(txHash))))
+//@   invariant 2 idx: 0 <= rangeindex + 1 && rangeindex + 1 <= len(details.MsgTx.TxIn) && len(details.MsgTx.TxIn) <= 4294967295
+//@   invariant 2 debits_sound: forall j Int :: {details.Debits[j]} 0 <= j && j < len(details.Debits) ==> DEBIT_OK(ns, details.Debits[j], details.MsgTx.TxIn, rangeindex + 1)
+//@   invariant 2 debits_complete: forall x Int :: {details.MsgTx.TxIn[x]} 0 <= x && x <= rangeindex && (IN_U(ns, PREVKEY(details.MsgTx.TxIn[x])) || HAS(B_MC(ns), PREVKEY(details.MsgTx.TxIn[x])))
+//@       ==> (exists j Int :: {at(j)} at(j) && 0 <= j && j < len(details.Debits) && details.Debits[j].Index == x)
+//@   invariant 2 mark: at(len(details.Debits))
+//@   ensures debits_sound: r != nil ==> (forall j Int :: {r.Debits[j]} 0 <= j && j < len(r.Debits) ==> DEBIT_OK(ns, r.Debits[j], r.MsgTx.TxIn, len(r.MsgTx.TxIn)))
+//@   ensures debits_complete: r != nil ==> (forall x Int :: {r.MsgTx.TxIn[x]} 0 <= x && x < len(r.MsgTx.TxIn) && (IN_U(ns, PREVKEY(r.MsgTx.TxIn[x])) || HAS(B_MC(ns), PREVKEY(r.MsgTx.TxIn[x])))
+//@       ==> (exists j Int :: {at(j)} at(j) && 0 <= j && j < len(r.Debits) && r.Debits[j].Index == x))
+//@   ensures result: err == nil ==> r != nil
+//@   ensures unconfirmed: err == nil ==> r.Block.Height == 0 - 1 && (forall i Int :: {select(r.Block.Hash, i)} 0 <= i && i < 32 ==> select(r.Block.Hash, i) == 0)
+//@   ensures hash: err == nil ==> r.Hash == old(deref(txHash))
+//@   ensures failure: err != nil ==> r == nil
+//@   ensures db_unchanged: DB_UNCHANGED()
+
+//@ func existsTxRecord(ns, txHash, block) (k, v)
+//@   property C13
+//@   requires wf: ns != nil && select(DBlive, B_T(ns)) && txHash != nil && block != nil
+//@   ensures key: len(k) == 68 && bytes(k) == K_tx(old(deref(txHash)), u32h(old(block.Height)), old(block.Hash))
+//@   ensures nil_iff_absent: (v == nil) == !HAS(B_T(ns), bytes(k))
+//@   ensures value: v != nil ==> bytes(v) == VAL(B_T(ns), bytes(k))
+//@   ensures db_unchanged: DB_UNCHANGED()
+//@   ensures frame: forall o Int :: {select(@M(uint8), o)} oldalloc(o) ==> select(@M(uint8), o) == select(old(@M(uint8)), o)
+
+//@ macro T_NO_NESTED(ns) = (forall K Bytes :: {sub(B_T(ns), K)} !select(DBlive, sub(B_T(ns), K)))
+//@ macro MINED_EXISTS(ns, h) = (exists K Bytes :: {select(select(DBhas, B_T(ns)), K)} HAS(B_T(ns), K) && ISPREFIX(h, K))
+
+// TxDetails: the unconfirmed record wins; otherwise a confirmed record of this hash, reported under the
+// block named by an existing record key; otherwise (nil, nil).
+//@ func (*Store).TxDetails(s, ns, txHash) (r, err)
+//@   property C13
+//@   requires wf: NS_ALL(ns) && txHash != nil && T_NO_NESTED(ns)
+//@   ensures unmined_first: old(HAS(B_M(ns), HASHB(txHash))) && err == nil ==> r != nil && r.Block.Height == 0 - 1
+//@   ensures unknown_is_nil: !old(HAS(B_M(ns), HASHB(txHash))) && !old(MINED_EXISTS(ns, HASHB(txHash))) ==> r == nil && err == nil
+//@   ensures known_is_found: (old(HAS(B_M(ns), HASHB(txHash))) || old(MINED_EXISTS(ns, HASHB(txHash)))) && err == nil ==> r != nil
+//@   ensures mined_under_its_block: !old(HAS(B_M(ns), HASHB(txHash))) && err == nil && r != nil ==>
+//@       (exists K Bytes :: {select(select(DBhas, B_T(ns)), K)} HAS(B_T(ns), K) && ISPREFIX(old(HASHB(txHash)), K) && blen(K) >= 68 && r.Block.Height == ktxHeight(K)
+//@           && (forall i Int :: {select(r.Block.Hash, i)} 0 <= i && i < 32 ==> select(r.Block.Hash, i) == bat(K, 36 + i)))
+//@   ensures hash: err == nil && r != nil ==> r.Hash == old(deref(txHash))
+//@   ensures db_unchanged: DB_UNCHANGED()
+
+// UniqueTxDetails: exact lookup, unconfirmed when block is nil, else the record keyed by (hash, block)
+//@ func (*Store).UniqueTxDetails(s, ns, txHash, block) (r, err)
+//@   property C13
+//@   requires wf: NS_ALL(ns) && txHash != nil
+//@   ensures unmined_exact: block == nil ==> (old(HAS(B_M(ns), HASHB(txHash))) ? (err == nil ==> r != nil && r.Block.Height == 0 - 1) : (r == nil && err == nil))
+//@   ensures mined_absent: block != nil && !old(HAS(B_T(ns), K_tx(deref(txHash), u32h(block.Height), block.Hash))) ==> r == nil && err == nil
+//@   ensures mined_exact: block != nil && old(HAS(B_T(ns), K_tx(deref(txHash), u32h(block.Height), block.Hash))) && err == nil ==> r != nil
+//@       && r.Block.Height == ktxHeight(K_tx(old(deref(txHash)), u32h(old(block.Height)), old(block.Hash)))
+//@       && (forall i Int :: {select(r.Block.Hash, i)} 0 <= i && i < 32 ==> select(r.Block.Hash, i) == select(old(block.Hash), i))
+//@   ensures hash: err == nil && r != nil ==> r.Hash == old(deref(txHash))
+//@   ensures db_unchanged: DB_UNCHANGED()
+
+// ---- RangeTransactions: delivery log of the callback f ----
+// unminedBatches / blockBatches count the calls of f with the unconfirmed batch / with a block's batch,
+// blocksBeforeUnmined is the value of blockBatches when the unconfirmed batch was delivered,
+// blockStop records that f asked to stop while blocks were being delivered.
+//@ ghost unminedBatches Int
+//@ ghost blockBatches Int
+//@ ghost blocksBeforeUnmined Int
+//@ ghost lastBatchHeight Int
+//@ ghost blockStop Bool
+//@ ghost unminedStop Bool
+//@ macro UNMINED_EXIST(ns) = (exists K Bytes :: {select(select(DBhas, B_M(ns)), K)} HAS(B_M(ns), K))
+
+// a negative height bound means "including unconfirmed" and is treated as the maximal height
+//@ macro NORMH(h) = (h < 0 ? 2147483647 : h)
+//@ func (*Store).rangeBlockTransactions@f(details) (brk, err)
+//@   trusted
+//@   modifies blockBatches, lastBatchHeight, blockStop
+//@   ensures logged: blockBatches == old(blockBatches) + 1 && blockStop == (old(blockStop) || brk)
+//@       && (len(details) > 0 ==> lastBatchHeight == old(details[0].Block.Height))
+
+// Assumed (body not verified: it collects the batch through ReadBucket.ForEach, for which G-DB has no
+// iteration rule): every record of bucket m yields one TxDetails; f is called once with that batch iff
+// no error occurred and the batch is not empty; its result is returned.
+//@ func (*Store).rangeUnminedTransactions(s, ns, f) (brk, err)
+//@   property C13
+//@   trusted
+//@   modifies unminedBatches, blocksBeforeUnmined, unminedStop
+//@   ensures stop_logged: unminedStop == (old(unminedStop) || brk)
+//@   ensures at_most_once: unminedBatches == old(unminedBatches) || unminedBatches == old(unminedBatches) + 1
+//@   ensures delivered: unminedBatches == old(unminedBatches) + 1 ==> UNMINED_EXIST(ns) && blocksBeforeUnmined == blockBatches
+//@   ensures skipped: unminedBatches == old(unminedBatches) ==> !brk && blocksBeforeUnmined == old(blocksBeforeUnmined)
+//@   ensures complete: err == nil && UNMINED_EXIST(ns) ==> unminedBatches == old(unminedBatches) + 1
+
+//@ func (*Store).rangeBlockTransactions(s, ns, begin, end, f) (brk, err)
+//@   property C13
+//@   requires wf: NS_ALL(ns)
+//@   invariant 1 log: blockBatches >= old(blockBatches) && blockStop == old(blockStop)
+//@   invariant 2 log: blockBatches >= old(blockBatches) && blockStop == old(blockStop)
+//@   invariant 2 direction: NORMH(begin) < NORMH(end) ? blockIter.elem.Height <= NORMH(end) : NORMH(end) <= blockIter.elem.Height
+//@   ensures log_monotone: blockBatches >= old(blockBatches)
+//@   ensures stop_reported: brk ==> blockStop
+//@   ensures not_stopped: !brk && err == nil ==> blockStop == old(blockStop)
+//@   ensures unmined_log_untouched: unminedBatches == old(unminedBatches) && blocksBeforeUnmined == old(blocksBeforeUnmined) && unminedStop == old(unminedStop)
+
+// RangeTransactions: the unconfirmed batch is offered exactly once when a bound is negative (first when
+// begin < 0, otherwise after the blocks), never otherwise.
+//@ func (*Store).RangeTransactions(s, ns, begin, end, f) (err)
+//@   property C13
+//@   requires wf: NS_ALL(ns)
+//@   requires fresh_log: !blockStop && !unminedStop
+//@   ensures stop_honoured: unminedStop && begin < 0 ==> blockBatches == old(blockBatches)
+//@   ensures never_without_negative_bound: begin >= 0 && end >= 0 ==> unminedBatches == old(unminedBatches)
+//@   ensures at_most_once: unminedBatches == old(unminedBatches) || unminedBatches == old(unminedBatches) + 1
+//@   ensures once_when_negative: (begin < 0 || end < 0) && err == nil && UNMINED_EXIST(ns) && !blockStop ==> unminedBatches == old(unminedBatches) + 1
+//@   ensures first_when_begin_negative: begin < 0 && unminedBatches == old(unminedBatches) + 1 ==> blocksBeforeUnmined == old(blockBatches)
+//@   ensures last_when_only_end_negative: begin >= 0 && unminedBatches == old(unminedBatches) + 1 ==> blocksBeforeUnmined == blockBatches
+
+// block iterator: a step succeeded exactly when the cursor is still set afterwards
+//@ func (*blockIterator).next(it) (ok)
+//@   property C13
+//@   requires nonnil: it != nil
+//@   ensures moved_iff_live: ok == (it.c != nil)
+//@   ensures forward: ok ==> lastCursorMove >= 0
+//@ func (*blockIterator).prev(it) (ok)
+//@   property C13
+//@   requires nonnil: it != nil
+//@   ensures moved_iff_live: ok == (it.c != nil)
+//@   ensures backward: ok ==> lastCursorMove <= 0
+
+// the two `advance` closures of rangeBlockTransactions: forward iteration continues exactly while the next
+// block record is at or below `end`, backward iteration exactly while the previous one is at or above `end`
+//@ func (*Store).rangeBlockTransactions$1(it) (r)
+//@   property C13
+//@   requires nonnil: it != nil
+//@   ensures forward_bound: r == (it.c != nil && it.elem.Height <= end)
+//@   ensures forward_move: r ==> lastCursorMove >= 0
+//@ func (*Store).rangeBlockTransactions$2(it) (r)
+//@   property C13
+//@   requires nonnil: it != nil
+//@   ensures backward_bound: r == (it.c != nil && end <= it.elem.Height)
+//@   ensures backward_move: r ==> lastCursorMove <= 0
+
+// ======================= C02: removal of unconfirmed transactions (tx.go, unconfirmed.go, db.go) =======================
+// every list of spenders in bucket mi is a whole number of 32-byte hashes (written only by putRawUnminedInput / deleteRawUnminedInput)
+//@ macro INV_MI(ns) = (forall K Bytes :: {select(select(DBval, B_MI(ns)), K)} HAS(B_MI(ns), K) ==> blen(VAL(B_MI(ns), K)) % 32 == 0)
+// only the three buckets of unconfirmed data (m, mc, mi) of this namespace may differ from the entry state
+//@ macro ONLY_UNMINED_TOUCHED(ns) = (DBlive == old(DBlive) && (forall id Int :: {select(DBhas, id)} {select(DBval, id)} id != B_M(ns) && id != B_MC(ns) && id != B_MI(ns) ==>
+//@     select(DBhas, id) == select(old(DBhas), id) && select(DBval, id) == select(old(DBval), id)))
+// buckets m and mc only lose keys; surviving keys keep their value
+//@ macro UNMINED_ONLY_SHRINK(ns) = (forall K Bytes :: {select(select(DBhas, B_M(ns)), K)} {select(select(DBhas, B_MC(ns)), K)}
+//@     (HAS(B_M(ns), K) ==> old(HAS(B_M(ns), K)) && VAL(B_M(ns), K) == old(VAL(B_M(ns), K))) && (HAS(B_MC(ns), K) ==> old(HAS(B_MC(ns), K)) && VAL(B_MC(ns), K) == old(VAL(B_MC(ns), K))))
+
+//@ func deleteRawUnmined(ns, k) (err)
+//@   property C02
+//@   requires wf: ns != nil && select(DBlive, B_M(ns))
+//@   ensures removed: err == nil ==> DBhas == store(old(DBhas), B_M(ns), store(select(old(DBhas), B_M(ns)), old(bytes(k)), false)) && DBval == old(DBval) && DBlive == old(DBlive)
+//@   ensures failure_changes_nothing: err != nil ==> DB_UNCHANGED()
+
+//@ func deleteRawUnminedCredit(ns, k) (err)
+//@   property C02
+//@   requires wf: ns != nil && select(DBlive, B_MC(ns))
+//@   ensures removed: err == nil ==> DBhas == store(old(DBhas), B_MC(ns), store(select(old(DBhas), B_MC(ns)), old(bytes(k)), false)) && DBval == old(DBval) && DBlive == old(DBlive)
+//@   ensures failure_changes_nothing: err != nil ==> DB_UNCHANGED()
+
+// deleteRawUnminedInput rewrites (or deletes) only the spender list of this one outpoint
+//@ func deleteRawUnminedInput(ns, outPointKey, targetSpendHash) (err)
+//@   property C02
+//@   requires wf: ns != nil && select(DBlive, B_MI(ns))
+//@   invariant 1 idx: 0 <= i && i <= numHashes && idx == 32 * i && numHashes == len(spendHashes) / 32 && len(newSpendHashes) % 32 == 0
+//@   invariant 1 fresh_list: newSpendHashes.base == 0 || fresh(newSpendHashes)
+//@   invariant 1 db_kept: DB_UNCHANGED()
+//@   ensures only_this_key: DBlive == old(DBlive) && (forall id Int :: {select(DBhas, id)} {select(DBval, id)} id != B_MI(ns) ==> select(DBhas, id) == select(old(DBhas), id) && select(DBval, id) == select(old(DBval), id))
+//@       && (forall K Bytes :: {select(select(DBhas, B_MI(ns)), K)} {select(select(DBval, B_MI(ns)), K)} K != old(bytes(outPointKey)) ==> HAS(B_MI(ns), K) == old(HAS(B_MI(ns), K)) && VAL(B_MI(ns), K) == old(VAL(B_MI(ns), K)))
+//@   ensures never_adds: HAS(B_MI(ns), old(bytes(outPointKey))) ==> old(HAS(B_MI(ns), bytes(outPointKey)))
+//@   ensures list_wellformed: HAS(B_MI(ns), old(bytes(outPointKey))) && err == nil ==> blen(VAL(B_MI(ns), old(bytes(outPointKey)))) % 32 == 0
+//@   ensures failure_changes_nothing: err != nil ==> DB_UNCHANGED()
+
+//@ func fetchUnminedInputSpendTxHashes(ns, k) (r)
+//@   property C02
+//@   requires wf: ns != nil && select(DBlive, B_MI(ns))
+//@   requires list_wellformed: HAS(B_MI(ns), bytes(k)) ==> blen(VAL(B_MI(ns), bytes(k))) % 32 == 0
+//@   invariant 1 aligned: len(rawSpendTxHashes) % 32 == 0
+//@   invariant 1 bytes_kept: BYTES_KEPT()
+//@   ensures db_unchanged: DB_UNCHANGED()
+//@   ensures bytes_kept: BYTES_KEPT()
+
+// deleteUnminedTx (the transaction got confirmed): its unconfirmed record and every unconfirmed credit of
+// it are gone, nothing outside the buckets of unconfirmed data changes, and no other unconfirmed record
+// or credit is removed.
+//@ func (*Store).deleteUnminedTx(s, ns, rec) (err)
+//@   property C02
+//@   requires wf: NS_ALL(ns) && rec != nil
+//@   requires outputs: len(rec.MsgTx.TxOut) <= 4294967295
+//@   invariant 1 frame: ONLY_UNMINED_TOUCHED(ns)
+//@   invariant 1 m_mc_kept: select(DBhas, B_M(ns)) == select(old(DBhas), B_M(ns)) && select(DBhas, B_MC(ns)) == select(old(DBhas), B_MC(ns))
+//@       && select(DBval, B_M(ns)) == select(old(DBval), B_M(ns)) && select(DBval, B_MC(ns)) == select(old(DBval), B_MC(ns))
+//@   invariant 1 bytes: BYTES_KEPT()
+//@   invariant 2 idx: 0 <= rangeindex + 1 && rangeindex + 1 <= len(rec.MsgTx.TxOut)
+//@   invariant 2 frame: ONLY_UNMINED_TOUCHED(ns)
+//@   invariant 2 m_kept: select(DBhas, B_M(ns)) == select(old(DBhas), B_M(ns)) && select(DBval, B_M(ns)) == select(old(DBval), B_M(ns)) && select(DBval, B_MC(ns)) == select(old(DBval), B_MC(ns))
+//@   invariant 2 credits_gone: forall j Int :: {K_op(rec.Hash, j)} 0 <= j && j <= rangeindex ==> !HAS(B_MC(ns), K_op(rec.Hash, j))
+//@   invariant 2 other_credits_kept: forall K Bytes :: {select(select(DBhas, B_MC(ns)), K)} (forall j Int :: {K_op(rec.Hash, j)} 0 <= j && j <= rangeindex ==> K != K_op(rec.Hash, j)) ==> HAS(B_MC(ns), K) == old(HAS(B_MC(ns), K))
+//@   invariant 2 bytes: BYTES_KEPT()
+//@   ensures self_gone: err == nil ==> !HAS(B_M(ns), old(bytes(rec.Hash)))
+//@   ensures credits_gone: err == nil ==> (forall j Int :: {K_op(rec.Hash, j)} 0 <= j && j < len(rec.MsgTx.TxOut) ==> !HAS(B_MC(ns), K_op(old(rec.Hash), j)))
+//@   ensures mined_untouched: ONLY_UNMINED_TOUCHED(ns)
+//@   ensures others_stay: forall K Bytes :: {select(select(DBhas, B_M(ns)), K)} K != old(bytes(rec.Hash)) ==> HAS(B_M(ns), K) == old(HAS(B_M(ns), K)) && VAL(B_M(ns), K) == old(VAL(B_M(ns), K))
+//@   ensures other_credits_stay: forall K Bytes :: {select(select(DBhas, B_MC(ns)), K)} (forall j Int :: {K_op(rec.Hash, j)} 0 <= j && j < len(rec.MsgTx.TxOut) ==> K != K_op(old(rec.Hash), j)) ==> HAS(B_MC(ns), K) == old(HAS(B_MC(ns), K))
+
+// removeConflict (recursive; its own contract is used at the recursive calls): the record and all its
+// unconfirmed credits are gone; confirmed data (every bucket other than m, mc, mi) is untouched; m and mc
+// only lose keys.
+//@ func (*Store).removeConflict(s, ns, rec) (err)
+//@   property C02
+//@   requires wf: NS_ALL(ns) && rec != nil
+//@   requires outputs: len(rec.MsgTx.TxOut) <= 4294967295
+//@   requires mi_wellformed: INV_MI(ns)
+//@   invariant 0 frame: ONLY_UNMINED_TOUCHED(ns)
+//@   invariant 0 shrink: UNMINED_ONLY_SHRINK(ns)
+//@   invariant 0 mi_wellformed: INV_MI(ns)
+//@   invariant 0 bytes: BYTES_KEPT()
+//@   invariant 0 rec_kept: rec.MsgTx.TxOut == old(rec.MsgTx.TxOut) && rec.MsgTx.TxIn == old(rec.MsgTx.TxIn)
+//@   invariant 1 idx: 0 <= rangeindex + 1 && rangeindex + 1 <= len(rec.MsgTx.TxOut)
+//@   invariant 1 credits_gone: forall j Int :: {K_op(rec.Hash, j)} 0 <= j && j <= rangeindex ==> !HAS(B_MC(ns), K_op(rec.Hash, j))
+//@   invariant 2 credits_gone: forall j Int :: {K_op(rec.Hash, j)} 0 <= j && j < i ==> !HAS(B_MC(ns), K_op(rec.Hash, j))
+//@   invariant 2 outer_idx: 0 <= i && i < len(rec.MsgTx.TxOut)
+//@   invariant 2 key: bytes(k) == K_op(rec.Hash, i)
+//@   invariant 3 credits_gone: forall j Int :: {K_op(rec.Hash, j)} 0 <= j && j < len(rec.MsgTx.TxOut) ==> !HAS(B_MC(ns), K_op(rec.Hash, j))
+//@   ensures self_gone: err == nil ==> !HAS(B_M(ns), old(bytes(rec.Hash)))
+//@   ensures credits_gone: err == nil ==> (forall j Int :: {K_op(rec.Hash, j)} 0 <= j && j < len(rec.MsgTx.TxOut) ==> !HAS(B_MC(ns), K_op(old(rec.Hash), j)))
+//@   ensures mined_untouched: ONLY_UNMINED_TOUCHED(ns)
+//@   ensures only_shrinks: UNMINED_ONLY_SHRINK(ns)
+//@   ensures mi_wellformed: INV_MI(ns)
+//@   ensures bytes_kept: BYTES_KEPT()
+
+// removeDoubleSpends: confirmed data is untouched and unconfirmed records/credits are only removed, never
+// added or rewritten. (That exactly the conflicting spenders and their descendants are removed is not
+// machine-checked: the set is defined by the recursion of removeConflict.)
+//@ func (*Store).removeDoubleSpends(s, ns, rec) (err)
+//@   property C02
+//@   requires wf: NS_ALL(ns) && rec != nil
+//@   requires mi_wellformed: INV_MI(ns)
+//@   invariant 0 frame: ONLY_UNMINED_TOUCHED(ns)
+//@   invariant 0 shrink: UNMINED_ONLY_SHRINK(ns)
+//@   invariant 0 mi_wellformed: INV_MI(ns)
+//@   invariant 0 bytes: BYTES_KEPT()
+//@   invariant 2 idx: 0 <= rangeindex + 1 && rangeindex + 1 <= len(doubleSpendHashes)
+//@   invariant 2 conflicts_gone: forall t Int :: {doubleSpendHashes[t]} 0 <= t && t <= rangeindex ==> heq(doubleSpendHashes[t], rec.Hash) || !HAS(B_M(ns), bytes(doubleSpendHashes[t]))
+//@   ensures mined_untouched: ONLY_UNMINED_TOUCHED(ns)
+//@   ensures only_shrinks: UNMINED_ONLY_SHRINK(ns)
+//@   ensures mi_wellformed: INV_MI(ns)
+
+// ---- C13: per-credit flags of minedTxDetails ----
+//@ macro B_CR(ns) = sub(bid(ns), bytes(bucketCredits))
+//@ spec func i64of(v Int) Int = v > 9223372036854775807 ? v - 18446744073709551616 : v
+// decoded fields of a credit key (output index) and a credit value (amount, spent bit, change bit)
+//@ spec func crIndex(k Bytes) Int = be32(bat(k, 68), bat(k, 69), bat(k, 70), bat(k, 71))
+//@ spec func crAmount(v Bytes) Int = i64of(be64(bat(v, 0), bat(v, 1), bat(v, 2), bat(v, 3), bat(v, 4), bat(v, 5), bat(v, 6), bat(v, 7)))
+//@ spec func crSpentBit(v Bytes) Bool = bat(v, 8) % 2 == 1
+//@ spec func crChangeBit(v Bytes) Bool = (bat(v, 8) / 2) % 2 == 1
+
+//@ func existsRawUnminedInput(ns, k) (v)
+//@   property C13
+//@   requires wf: ns != nil && select(DBlive, B_MI(ns))
+//@   ensures nil_iff_absent: (v == nil) == !HAS(B_MI(ns), old(bytes(k)))
+//@   ensures db_unchanged: DB_UNCHANGED()
+
+// Assumed: readCursor{c} only forwards to the cursor c it wraps, so the iterator's cursor is a cursor of bucket c.
+//@ func makeReadCreditIterator(ns, prefix) (r)
+//@   property C13
+//@   trusted
+//@   pure
+//@   ensures iterator: r.c != nil && cbkt(r.c) == B_CR(ns) && r.ck == nil && r.prefix == prefix && r.err == nil
+
+//@ func (*creditIterator).readElem(it) (err)
+//@   property C13
+//@   requires nonnil: it != nil
+//@   ensures kept: it.c == old(it.c) && it.ck == old(it.ck) && it.cv == old(it.cv) && it.prefix == old(it.prefix) && it.err == old(it.err)
+//@   ensures short: len(it.ck) < 72 || len(it.cv) < 9 ==> err != nil
+//@   ensures elem: err == nil ==> it.elem.Index == crIndex(bytes(it.ck)) && it.elem.Amount == crAmount(bytes(it.cv)) && it.elem.Spent == crSpentBit(bytes(it.cv)) && it.elem.Change == crChangeBit(bytes(it.cv))
+
+// one step of the credit iterator: on success the element is decoded from a pair of the bucket whose key extends the prefix
+//@ func (*creditIterator).next(it) (ok)
+//@   property C13
+//@   requires nonnil: it != nil
+//@   ensures step: ok ==> it.c == old(it.c) && it.c != nil && it.prefix == old(it.prefix) && it.ck != nil
+//@       && HAS(cbkt(it.c), bytes(it.ck)) && bytes(it.cv) == VAL(cbkt(it.c), bytes(it.ck)) && ISPREFIX(bytes(it.prefix), bytes(it.ck)) && len(it.ck) >= 72 && len(it.cv) >= 9
+//@   ensures elem: ok ==> it.elem.Index == crIndex(bytes(it.ck)) && it.elem.Amount == crAmount(bytes(it.cv)) && it.elem.Spent == crSpentBit(bytes(it.cv)) && it.elem.Change == crChangeBit(bytes(it.cv))
+//@   ensures stopped: !ok ==> it.c == nil || it.err != nil
+//@   ensures db_unchanged: DB_UNCHANGED()
+
+// ---- C13: per-credit flags of unminedTxDetails ----
+//@ spec func mcIndex(k Bytes) Int = be32(bat(k, 32), bat(k, 33), bat(k, 34), bat(k, 35))
+
+// Assumed: readCursor{c} only forwards to the cursor c it wraps (cursor of bucket mc); the prefix is the hash.
+//@ func makeReadUnminedCreditIterator(ns, txHash) (r)
+//@   property C13
+//@   trusted
+//@   pure
+//@   ensures iterator: r.c != nil && cbkt(r.c) == B_MC(ns) && r.ck == nil && r.err == nil && len(r.prefix) == 32 && bytes(r.prefix) == HASHB(txHash)
+
+//@ func (*unminedCreditIterator).readElem(it) (err)
+//@   property C13
+//@   requires nonnil: it != nil
+//@   ensures kept: it.c == old(it.c) && it.ck == old(it.ck) && it.cv == old(it.cv) && it.prefix == old(it.prefix) && it.err == old(it.err) && it.elem.Spent == old(it.elem.Spent)
+//@   ensures short: len(it.ck) < 36 || len(it.cv) < 9 ==> err != nil
+//@   ensures elem: err == nil ==> it.elem.Index == mcIndex(bytes(it.ck)) && it.elem.Amount == crAmount(bytes(it.cv)) && it.elem.Change == crChangeBit(bytes(it.cv))
+
+//@ func (*unminedCreditIterator).next(it) (ok)
+//@   property C13
+//@   requires nonnil: it != nil
+//@   ensures step: ok ==> it.c == old(it.c) && it.c != nil && it.prefix == old(it.prefix) && it.ck != nil
+//@       && HAS(cbkt(it.c), bytes(it.ck)) && bytes(it.cv) == VAL(cbkt(it.c), bytes(it.ck)) && ISPREFIX(bytes(it.prefix), bytes(it.ck)) && len(it.ck) >= 36 && len(it.cv) >= 9
+//@   ensures elem: ok ==> it.elem.Index == mcIndex(bytes(it.ck)) && it.elem.Amount == crAmount(bytes(it.cv)) && it.elem.Change == crChangeBit(bytes(it.cv))
+//@   ensures stopped: !ok ==> it.c == nil || it.err != nil
+//@   ensures db_unchanged: DB_UNCHANGED()
+
+// ---- C13: debits of minedTxDetails ----
+//@ macro B_DB(ns) = sub(bid(ns), bytes(bucketDebits))
+// Assumed: readCursor{c} only forwards to the cursor c it wraps (cursor of bucket d).
+//@ func makeReadDebitIterator(ns, prefix) (r)
+//@   property C13
+//@   trusted
+//@   pure
+//@   ensures iterator: r.c != nil && cbkt(r.c) == B_DB(ns) && r.ck == nil && r.prefix == prefix && r.err == nil
+
+//@ func (*debitIterator).readElem(it) (err)
+//@   property C13
+//@   requires nonnil: it != nil
+//@   ensures kept: it.c == old(it.c) && it.ck == old(it.ck) && it.cv == old(it.cv) && it.prefix == old(it.prefix) && it.err == old(it.err)
+//@   ensures short: len(it.ck) < 72 || len(it.cv) < 80 ==> err != nil
+//@   ensures elem: err == nil ==> it.elem.Index == crIndex(bytes(it.ck)) && it.elem.Amount == crAmount(bytes(it.cv))
+
+//@ func (*debitIterator).next(it) (ok)
+//@   property C13
+//@   requires nonnil: it != nil
+//@   ensures step: ok ==> it.c == old(it.c) && it.c != nil && it.prefix == old(it.prefix) && it.ck != nil
+//@       && HAS(cbkt(it.c), bytes(it.ck)) && bytes(it.cv) == VAL(cbkt(it.c), bytes(it.ck)) && ISPREFIX(bytes(it.prefix), bytes(it.ck)) && len(it.ck) >= 72 && len(it.cv) >= 80
+//@   ensures elem: ok ==> it.elem.Index == crIndex(bytes(it.ck)) && it.elem.Amount == crAmount(bytes(it.cv))
+//@   ensures stopped: !ok ==> it.c == nil || it.err != nil
+//@   ensures db_unchanged: DB_UNCHANGED()
